@@ -60,6 +60,10 @@ claimed = {
    text="Both halves of the delta codec are under contract on the real code, for every file, block layout and token stream. Sender: the sliding read window (mapStruct.ptr) is proved against its representation invariant 'window[k] == file byte pOffset+k' with a ghost model of the file and its read cursor: every request inside the file returns exactly the requested bytes (content and segment postconditions, no bound on sizes), never fails on a static file, and keeps the invariant; simpleSendToken/sendToken/matched: literal chunks are exactly the consecutive file ranges since the last match, each announced by its length, followed by the token -(i+1); lastMatch advances exactly past what was sent and hashed; hashSearch: all index/slice/window requests are in range (loop invariants over offset, k, backlog), a block reference is emitted only after the seeded MD4 of the source range [offset, offset+len_i), truncated to the agreed length, was compared equal to the receiver's and the lengths agree (strong-checksum gate), the final flush is at end of file; SendFiles builds valid search tables; sendFile sends the whole file as consecutive ranges; Checksum2 = MD4(block ++ seed). Receiver: a literal token writes exactly the bytes that follow it, a block reference t writes exactly basis bytes [t*BlockLength, +len) with the remainder length for the last block. Three defects (window rounded past EOF, empty-source panic, both replayed; over-limit frames under C17) were found as failing obligations and fixed.",
    note="Trusted: the file model (static source, reads return data or an error), strong-checksum equality standing for byte equality (MD4), ghost cursor ownership, io.CopyBuffer for the whole-file hash of sendFile; omitted calls are not detected by call-site assertions; the composition 'tiles + equal blocks => identical file' is argued in DESIGN.md, not machine-checked as one theorem.",
    design="4.2"),
+ "C16": dict(
+   text="Partial, stated as such: the part of 'matches are found at every byte offset' that is a property of the search structure is proved on the real code for every signature: SendFiles sorts the targets by tag and builds, per file, a fresh tag table that maps every occurring tag to the first index of its run and nothing else (loop invariant over the map model, sort.Slice contract with the real comparator); hashSearch starts its scan at that index and leaves the scan only when the run is exhausted (loop-exit clause on every edge into the loop's successor block; a match leaves through the tail that is not part of the loop) - hence every signature block whose tag equals the window's tag is compared at every offset (call-site assertion 'no candidate outside the scan'); together with C02's invariant that the window examined at offset o is the file range [o, o+k) and that offsets advance by one between matches.",
+   note="NOT covered: the rolling update of s1/s2 (that the tag looked up at an offset is the weak checksum of the window there; 32-bit multiplicative arithmetic) and the quantitative bound on literal bytes; these remain assumptions. Trusted: sort.Slice for a strict weak order.",
+   design="4.16"),
 }
 not_yet = "check not built yet in this session (work in progress; see DESIGN.md for the planned contract)"
 na = {"C18": "liveness under all schedules / deadlock freedom / data-race freedom are whole-history and concurrency properties; per-function pre/postconditions over sequential SSA cannot express them and govc has no model of goroutines or channels (DESIGN.md §4.18)"}
